@@ -1,0 +1,36 @@
+//go:build verif
+
+// Contracts for contract-based deductive verification (checked by /verif/govc).
+// This file is comment-only and compiled only with the build tag "verif".
+
+package main
+
+// dump only formats and logs; a leading odd argument must be the prefix string (both call sites pass one).
+//@ func dump safety=C14
+//@   requires len(args) % 2 == 1 ==> typeis(args[0], string)
+//@   modifies nothing
+//@ loop 0 in dump at "idx < len(args)-1"
+//@   invariant 0 <= $t17
+
+//@ func containerName safety=C14
+//@   requires container != nil
+//@   modifies nothing
+
+// CreateContainer: never panics for any annotation value; a refused request (unparsable limit) returns the error and
+// no adjustment; the adjustment carries misc.max exactly when the effective limit is positive.
+// pod and container are the (non-optional) top-level messages of the event.
+//@ func (*plugin).CreateContainer safety=C14
+//@   requires pod != nil && container != nil
+//@   modifies nothing
+//@   let ann = pod.Annotations
+//@   let kc = epcLimitKey + "/container." + container.Name
+//@   let kp = epcLimitKey + "/pod"
+//@   let present = kc in ann || kp in ann || epcLimitKey in ann
+//@   let eff = kc in ann ? ann[kc] : (kp in ann ? ann[kp] : ann[epcLimitKey])
+//@   let lim = strconv.ParseUint(eff, 10, 64)
+//@   ensures[C14] err != nil ==> result0 == nil && result1 == nil
+//@   ensures[C14,C18] (err != nil) == (present && lim.1 != nil)
+//@   ensures[C14,C18] err == nil ==> result0 != nil
+//@   ensures[C14,C18] err == nil && (!present || lim.0 == 0) ==> result0.Linux == nil
+//@   ensures[C14,C18] err == nil && present && lim.0 > 0 ==> result0.Linux != nil && result0.Linux.Resources != nil &&
+//@        "misc.max" in result0.Linux.Resources.Unified && result0.Linux.Resources.Unified["misc.max"] == "sgx_epc " + strconv.FormatUint(lim.0, 10)
